@@ -36,7 +36,7 @@ import pyarrow as pa
 
 PROPERTY = "C32"
 LEVEL = "exploration"
-QUICK_RUNS = 2000
+QUICK_RUNS = 2600
 THOROUGH_RUNS = 150_000
 QUICK_BUDGET_S = 100
 THOROUGH_BUDGET_S = 1500
@@ -134,7 +134,7 @@ def run(ctx: RunCtx) -> None:
     case = gen_case(ch)
     ctx.sample = case
     ctx.case_key = repr(case)
-    sched = Scheduler(ch, ctx.log, trace_files={P.__file__}, preempt_budget=3, horizon=1500, time_leap=True, sync_preempts=2, sync_odds=6,
+    sched = Scheduler(ch, ctx.log, trace_files={P.__file__}, preempt_budget=3, horizon=1500, time_leap=True, sync_preempts=3, sync_odds=3,
                       wall_limit=60.0)
     simtime = SimTime(sched)
     seen: set[str] = set()
